@@ -12,13 +12,19 @@ class AbstractOnlineInterpreter(AbstractInterpreter):
         return
 
     def reset(self):
-        # reset sub-specs
-        for key in self.ast.var_subspec_dict:
-            node = self.ast.var_subspec_dict[key]
-            self.resetVisitor.visitAst(node, self.online_operator_dict)
+        # nothing to reset before the first update: the online operations are
+        # created by set_ast(), in their initial state
+        if getattr(self, 'ast', None) is None:
+            return
 
-        # reset spec
-        self.resetVisitor.visitAst(self.ast, self.online_operator_dict)
+        # Re-create the online operations of the specification and of its
+        # sub-specifications in their initial state. (Resetting them one by one
+        # through the reset visitor failed for sub-specifications, was not
+        # available for dense time, and the dense-time operations keep their
+        # buffers in reset().)
+        self.online_operator_dict = dict()
+        self.visitAst(self.ast)
+        self.updateVisitor = self.updateVisitor.__class__()
         return
 
     def set_ast(self, ast):
